@@ -1,6 +1,7 @@
 #![allow(dead_code)]
 mod base;
 mod c01;
+mod deleg;
 mod http;
 mod c06;
 mod repo;
@@ -18,6 +19,7 @@ fn main() {
     let rest = &args[2..].to_vec();
     match args[1].as_str() {
         "c01" => c01::run(rest),
+        "deleg" => deleg::run(rest),
         "c18" => http::run(rest),
         "urljoin" => { let b = url::Url::parse(&rest[0]).unwrap(); for a in &rest[1..] { println!("{:?} -> {:?}", a, b.join(a).map(|u| u.to_string())); } }
         "c06" => c06::run(rest),
